@@ -370,7 +370,7 @@ def oracle_value(m, comp):
 # ---------------------------------------------------------------------------------------------
 # generators
 
-YEARS = [1, 4, 100, 400, 1600, 1900, 1970, 1999, 2000, 2001, 2003, 2004, 2005, 2008, 2020, 2021,
+YEARS = [0, 0, 1, 4, 100, 400, 1600, 1900, 1970, 1999, 2000, 2001, 2003, 2004, 2005, 2008, 2020, 2021,
          2024, 2099, 2100, 2400, 9998]
 
 
@@ -459,6 +459,8 @@ def g_comp(rng):
         if k in ("leap", "diy", "wiy", "wstart", "owstart", "since1ad"):
             return (k, y)
         if k == "dim":
+            if rng.random() < 0.25:       # February of the years a truth test or a table slip gets wrong
+                return (k, 2, rng.choice([0, 0, 4, 100, 400, 1900, 2000, -4]))
             return (k, g_month(rng), y)
         if k == "dimflag":
             return (k, g_month(rng), rng.choice(["leap", None]))
@@ -473,6 +475,8 @@ def g_comp(rng):
                 "w": ("w", y, g_week(rng), rng.randint(1, 7))}[k[0]]
         return (k,) + date[1:]
     if r < 0.55:
+        if rng.random() < 0.2:
+            return ("valid", "c", rng.choice([0, 0, 4, 100, 1900, 2000, 2001]), 2, rng.choice([28, 29, 30]))
         return ("valid",) + g_date(rng)
     if r < 0.68:
         return ("add", g_tp(rng), g_dur(rng))
